@@ -161,10 +161,11 @@ pub fn exec(op: &str, a: &[String]) -> Option<Reply> {
 }
 
 /// a call of `f` in which every argument depends on the event: runtime-typed ones are event fields,
-/// literal-only ones (and a share of the others) are `if .c<i> == true { L1 } else { L2 }`
+/// literal-only ones (and a share of the others) are variables `v<i> = L1; if .c<i> == true { v<i> = L2 }`
 fn gen_dynamic_call(f: &dyn vrl::compiler::Function, rng: &mut Rng) -> Option<(String, Value, Value)> {
     use crate::sweep::*;
     let mut args: Vec<String> = Vec::new();
+    let mut prelude = String::new();
     let mut ea = vrl::value::ObjectMap::new();
     let mut eb = vrl::value::ObjectMap::new();
     for (i, p) in f.parameters().iter().enumerate() {
@@ -181,7 +182,9 @@ fn gen_dynamic_call(f: &dyn vrl::compiler::Function, rng: &mut Rng) -> Option<(S
             let (l1, l2) = (*rng.pick(pool), *rng.pick(pool));
             ea.insert(format!("c{i}").into(), Value::Boolean(rng.chance(1, 2)));
             eb.insert(format!("c{i}").into(), Value::Boolean(rng.chance(1, 2)));
-            format!("(if .c{i} == true {{ {l1} }} else {{ {l2} }})")
+            // through a variable reassigned under a condition: accepted where a literal is required
+            prelude.push_str(&format!("v{i} = {l1}\nif .c{i} == true {{ v{i} = {l2} }}\n"));
+            format!("v{i}")
         } else {
             ea.insert(format!("p{i}").into(), runtime_pool(kind, rng));
             eb.insert(format!("p{i}").into(), runtime_pool(kind, rng));
@@ -194,7 +197,7 @@ fn gen_dynamic_call(f: &dyn vrl::compiler::Function, rng: &mut Rng) -> Option<(S
         }
     }
     let name = f.identifier();
-    let src = format!("{name}!({}){}", args.join(", "), closure_suffix(name));
+    let src = format!("{prelude}{name}!({}){}", args.join(", "), closure_suffix(name));
     Some((src, Value::Object(ea), Value::Object(eb)))
 }
 
